@@ -44,6 +44,7 @@ fn observe_set(vs: &BddVariableSet, probes: &[String]) -> Vec<String> {
 }
 
 pub fn run(key: &str, a: &[String], out: &mut Out) {
+    out.begin(key, a);
     match key {
         "C16.new" => {
             // names probes => ok num_vars variables name_of* variable_names var_by_name(probes)* | panic
